@@ -617,6 +617,7 @@ func urlMain(args []string) {
 			PageVal: pageVocab[rng.Intn(len(pageVocab))], FilterJS: filterVocab[rng.Intn(len(filterVocab))]}
 	}
 	emit := func(c uCase) uEvent {
+		w.Inflight(c)
 		ev := runURLCase(c)
 		if ev.Ret == "skip" {
 			return ev
